@@ -292,6 +292,8 @@ pub enum Kind {
     Nest { depth: u32, closed: bool, #[serde(default)] via_else: bool },
     /// valid encoding repeated / extended with a long tail
     Extend { seed: u32, tail: u32, byte: u8 },
+    /// deeply nested JSON ('[' x depth) / CBOR (array-of-one header x depth) / ASM text
+    DeepDoc { depth: u32 },
     /// text = Base58Check (valid checksum) of an arbitrary payload, incl. the empty one: reaches the code behind
     /// the checksum test of the WIF / address / extended-key decoders
     B58Check(#[serde(with = "crate::gen::hexser")] Vec<u8>),
@@ -389,6 +391,15 @@ pub fn input_of(dec: &Decoder, kind: &Kind) -> (Vec<u8>, String) {
             }
             as_feed(v)
         }
+        Kind::DeepDoc { depth } => {
+            if dec.name.contains("compact") {
+                let v: Vec<u8> = std::iter::repeat(0x81u8).take(*depth as usize).collect();
+                as_feed(v)
+            } else {
+                let t: String = std::iter::repeat('[').take(*depth as usize).collect();
+                (t.as_bytes().to_vec(), t)
+            }
+        }
         Kind::B58Check(payload) => {
             let t = codec::base58check_encode(payload);
             (t.as_bytes().to_vec(), t)
@@ -467,6 +478,14 @@ impl Property for C09 {
                         return;
                     }
                     cut += step;
+                }
+            }
+            if d.name.contains("json") || d.name.contains("compact") || d.name.contains("serde") {
+                for depth in [100u32, 129, 257, 10_000, 200_000] {
+                    idx += 1;
+                    if idx % nshards == shard && !f(Case { dec: di as u8, kind: Kind::DeepDoc { depth } }) {
+                        return;
+                    }
                 }
             }
             if matches!(d.name, "PrivateKey::from_wif" | "P2PKHAddress::from_string" | "ExtendedPrivateKey::from_string" | "ExtendedPublicKey::from_string" | "serde_json P2PKHAddress") {
@@ -561,6 +580,7 @@ impl Property for C09 {
             Kind::Nest { .. } => o.nt("nest"),
             Kind::Extend { .. } => o.nt("extended"),
             Kind::B58Check(_) | Kind::B58Rewrap { .. } => o.nt("valid-checksum-wrong-payload"),
+            Kind::DeepDoc { .. } => o.nt("deeply-nested-document"),
         }
         let _ = (Bytes::Lit(vec![]), gt::pad_out(0), gs::count(&[]), El::Op(0));
         Ok(o)
